@@ -148,6 +148,8 @@ def run(ctx):
             return r
         if site.kind == "assert-bounds":
             return strguard.discharge_bytes(F_, cg_, site, pr)
+        if site.kind == "std-panicking" and site.detail.endswith("<impl str>::split_at"):
+            return strguard.discharge(F_, cg_, site, pr)
         return None
 
     def span_rule(F_, cg_, site, pr):
